@@ -198,6 +198,8 @@ def _explore_facts(f, interest, kill_on, at_nodes):
         if c is None:
             return facts
         s = canon(f, c)
+        if s not in interest:
+            s = rcanon(f, c)        # through locals that merely name a sub-expression
         if s in interest:
             return frozenset(facts) | {('T' if p2 else 'F', s)}
         return facts
@@ -711,6 +713,54 @@ FIXTURES = {
 }
 
 
+def r14_4(ctx):
+    """a statistic computed from the byte histogram of a range is normalised by what the
+    histogram holds, not by the length that was asked for: the histogram builder clips the
+    range to the data, so after the call the requested length no longer says how many
+    bytes were counted.  Rule: the variable passed as length to the histogram builder is
+    not read again on any path after the call."""
+    n = 0
+    for f in ctx.prog.fns():
+        if f.tu.name not in MODULE_TUS and not ctx.fixture:
+            continue
+        for c in f.calls():
+            if c.get('callee') != 'get_distribution':
+                continue
+            args = f.call_args(c)
+            if len(args) < 2:
+                continue
+            L = cu.strip_casts(f, args[1])
+            if L is None or L['k'] != 'ref':
+                continue
+            n += 1
+            name = L['name']
+            nb = f.block_of(c)
+            bad = []
+
+            def step(x, facts, name=name):
+                if x['k'] == 'ref' and x['name'] == name:
+                    p = f.parent(x)
+                    if not (p is not None and p['k'] == 'bin' and p['op'] == '=' and f.kid(p, 0) is x):
+                        bad.append(x)
+                        return None
+                if x['k'] == 'bin' and x['op'] == '=':
+                    l = f.kid(x, 0)
+                    if l is not None and l['k'] == 'ref' and l['name'] == name:
+                        return None      # given a new meaning
+                if x['k'] == 'ret':
+                    return None
+                return facts
+            paths.explore(f, set(), step, None, start_block=nb[0], start_index=nb[1] + 1, max_states=64)
+            ctx.ob('R14.4', '%s:requested-length-not-used-after-histogram' % f.name, not bad,
+                   f.loc(bad[0]) if bad else f.loc(c),
+                   'after the histogram of the (clipped) range was built the requested length is not '
+                   'read again' if not bad else
+                   '%s reads the requested length `%s` after get_distribution() built the histogram: '
+                   'the range is clipped to the data, so fewer bytes may have been counted and the '
+                   'result is not the statistic of the bytes addressed' % (f.name, name))
+    ctx.count('histogram_users', n)
+
+
 def run(ctx):
     r14_1(ctx)
     ctx.floor('R14.1', 30)
@@ -718,3 +768,5 @@ def run(ctx):
     ctx.floor('R14.2', 8 * 12)
     r14_3(ctx)
     ctx.floor('R14.3', 15)
+    r14_4(ctx)
+    ctx.floor('R14.4', 5)
